@@ -125,6 +125,8 @@ def main():
             ts = time.time()
             rec, fails = core.run_sub(ctx, mod, sub, findings)
             rec.wall = time.time() - ts
+            if rec.evaluations == 0 and rec.notes and not fails:
+                continue          # sub-check reserved for the other tier
             recs.append(rec)
             all_fail += fails
 
